@@ -118,7 +118,7 @@ func (c *c01Worker) Run(path []SOp) (bfs.Outcome, error) {
 	if err != nil {
 		return bfs.Outcome{}, err
 	}
-	out := bfs.Outcome{Obs: tr.Obs, Canon: CanonRecs(tr.Recs, c.keys...) + "|" + CanonReleased(tr.Released, c.keys...)}
+	out := bfs.Outcome{Obs: tr.Obs, Canon: CanonRecs(tr.Recs, c.keys...) + "|" + CanonReleased(tr.Released, c.keys...) + "|" + CanonRoutes(path, tr.Released, c.keys...)}
 	// Only this property's invariant decides. (Whether a released signature is over exactly the requested data is
 	// C08's statement and is not alarmed here.)
 	out.Viol = attInvariant(tr.Released)
